@@ -702,6 +702,7 @@ SCHEMA_TYPES = [
     "collections.Counter[str]", "DefaultDict[str, List[int]]", "NTS", "TDS", "List[NTS]", "Dict[str, TDS]", "NTI", "Annotated[int, 'm']",
     "Leaf", "Aliased", "Outer", "List[Leaf]", "Optional[Leaf]", "Dict[str, Outer]", "Gen[int]", "TwoGen", "TwoSame", "Tuple[Leaf, Leaf]", "Union[Leaf, Aliased]",
     "NtOptDictEngList", "NtOptListEngDict", "NtEngineOnly", "NtDialectDict", "NtItemEngine", "SerOverride", "AnnGen",
+    "Optional[Any]", "Dict[str, Union[int, Any]]", "List[Optional[Any]]", "Union[str, Any, None]",
 ]
 
 KNOWN_TAGS = {
